@@ -139,6 +139,7 @@ package %(pkgname)s
 import (
 	"fmt"
 	"os"
+	"runtime"
 	"strings"
 	"testing"
 
@@ -170,6 +171,11 @@ func runOneVerifReplay(path string, entry func()) (out string) {
 func TestVerifReplay(t *testing.T) {
 	entries := map[string]func(){
 %(entries)s
+	}
+	if os.Getenv("VERIF_GOMAXPROCS") == "1" {
+		// schedule-dependent counterexamples: one P makes goroutines run to their
+		// next blocking point, which is the interleaving granularity of the model
+		runtime.GOMAXPROCS(1)
 	}
 	list := strings.Split(os.Getenv("VERIF_REPLAYS"), ":")
 	attempts := %(attempts)d
@@ -221,7 +227,7 @@ def go_package_name(pkg):
     raise RuntimeError("no package clause in " + d)
 
 
-def native_replay(pkg, items, scratch, attempts=1, timeout=600):
+def native_replay(pkg, items, scratch, attempts=1, timeout=600, gomaxprocs1=False):
     """items: list of (entry, replay_path). Returns {replay_path: result string}."""
     ov = {}
     for root, _, files in os.walk(HARNESS):
@@ -262,13 +268,24 @@ def native_replay(pkg, items, scratch, attempts=1, timeout=600):
                 renv["VERIF_COVER_LABEL"] = meta["label"].split(":", 1)[1]
         except (OSError, ValueError, IndexError):
             pass
-        try:
-            q = subprocess.run(["sh", "-c", "ulimit -v 12000000; exec \"$0\" -test.run '^TestVerifReplay$' -test.v -test.timeout %ds" % timeout, binpath],
-                               cwd=os.path.join(REPO, pkg), env=renv, stdout=subprocess.PIPE, stderr=subprocess.STDOUT, text=True, timeout=timeout + 30)
-            out = q.stdout
-        except subprocess.TimeoutExpired as ex:
-            out = (ex.stdout or b"").decode("utf-8", "replace") if isinstance(ex.stdout, bytes) else (ex.stdout or "")
-            res[path] = "TIMEOUT"
+        # schedule-dependent counterexamples are retried under several degrees of
+        # real parallelism (the Go scheduler cannot be driven from outside)
+        procs_list = [None]
+        if gomaxprocs1:
+            procs_list = ["2", "3", "4", "1", "8"]
+        out = ""
+        for procs in procs_list:
+            if procs:
+                renv["GOMAXPROCS"] = procs
+            try:
+                q = subprocess.run(["sh", "-c", "ulimit -v 12000000; exec \"$0\" -test.run '^TestVerifReplay$' -test.v -test.timeout %ds" % timeout, binpath],
+                                   cwd=os.path.join(REPO, pkg), env=renv, stdout=subprocess.PIPE, stderr=subprocess.STDOUT, text=True, timeout=timeout + 30)
+                out = q.stdout
+            except subprocess.TimeoutExpired as ex:
+                out = (ex.stdout or b"").decode("utf-8", "replace") if isinstance(ex.stdout, bytes) else (ex.stdout or "")
+                res[path] = "TIMEOUT"
+            if " PASSED" not in out:
+                break
         got = False
         for line in out.splitlines():
             if line.startswith("VERIF-REPLAY "):
@@ -402,7 +419,7 @@ def run_property(pid, tier, seed, cfg, scratch, t0):
                 per_pkg.setdefault(run["pkg"], []).append((run["entry"], path))
     replay_log = ""
     for pkg, items in per_pkg.items():
-        res, out = native_replay(pkg, items, scratch, attempts=attempts_cfg)
+        res, out = native_replay(pkg, items, scratch, attempts=attempts_cfg, gomaxprocs1=cfg.get("gomaxprocs1", False))
         replay_results.update(res)
         replay_log += out[-2000:]
     n_replayed = len(replay_results)
